@@ -18,9 +18,10 @@ import common as C  # noqa: E402
 from floatcmp import f2b, b2f, close  # noqa: E402
 from parallel import driver_parallel  # noqa: E402
 
-GEN = ['CurvesF', 'CurvesR']
-PROPS = ['FinVerif.Props.C02a', 'FinVerif.Props.C02b', 'FinVerif.Props.C02c', 'FinVerif.Props.C02d', 'FinVerif.Props.C02e']
-DRIVERS = ['FinVerif.Driver.C02']
+GEN = ['CurvesF', 'CurvesR', 'DateK', 'DayCount']   # DateK/DayCount: Props/C02f (time axes) is about the generated year_frac
+PROPS = ['FinVerif.Props.C02a', 'FinVerif.Props.C02b', 'FinVerif.Props.C02c', 'FinVerif.Props.C02d', 'FinVerif.Props.C02e',
+         'FinVerif.Props.C02f']
+DRIVERS = ['FinVerif.Driver.C02', 'FinVerif.Driver.C02Axis']
 
 RULE = ('uinterp: seeded knot vectors (1..8 knots, first knot 0 or later, dfs from zero rates of both signs) x the three '
         'local kernels x query times at/around/between knots, left of the first knot and to far extrapolation; '
@@ -28,7 +29,8 @@ RULE = ('uinterp: seeded knot vectors (1..8 knots, first knot 0 or later, dfs fr
         'every InterpTypes / FrequencyTypes / DayCountTypes member (each member at least once per run), pillar sets with '
         'the first pillar on or after the valuation date, query dates = valuation date, every pillar, pillar +-1 day, '
         'midpoints, seeded dates, and +1d/+1y/+10y/+30y/+60y beyond the last pillar. One evaluation = one '
-        '(curve, query, view) compared with the model or checked by an oracle; non-trivial = the query is not the '
+        '(curve, query, view) compared with the model or checked by an oracle; time-axis: 4000 seeded date pairs 1 Mar 1900..2140 '
+        '(year ends, 28/29 Feb, leap and century years; non-trivial = the span touches a leap year); non-trivial = the query is not the '
         'valuation date. Cases are distinct by construction (seeded, no deduplication needed).')
 
 RTOL = 1e-9      # model vs implementation (fastmath re-association, libm vs NumPy exp/log/pow: <= 1e-13 on these kernels)
@@ -58,20 +60,8 @@ def quiet(f, *a, **k):
         return f(*a, **k)
 
 
-def touches_leap(v, d):
-    """True iff some day of [v, d) lies in a leap year  <=>  ACT/ACT ISDA time != (d - v)/365 over the reals."""
-    import calendar
-    if d.excel_dt <= v.excel_dt:
-        return False
-    for y in range(v.y, d.y + 1):
-        if calendar.isleap(y):
-            # days of year y inside [v, d)
-            from financepy.utils.date import Date
-            lo = max(v.excel_dt, Date(1, 1, y).excel_dt)
-            hi = min(d.excel_dt, Date(1, 1, y + 1).excel_dt)
-            if hi > lo:
-                return True
-    return False
+import timeaxis  # noqa: E402
+from timeaxis import touches_leap  # noqa: E402,F401  (the ONE classifier predicate: mirror of Spec.touchesLeap, compared with Lean every run)
 
 
 class Cmp:
@@ -136,7 +126,7 @@ def run(ctx):
         if p not in props:
             ctx.broke(f'proof: {p} is missing')
     drivers_ok = C.lean_stage(ctx, GEN, props, DRIVERS,
-                              extra_files=['FinVerif/Model/C02.lean', 'FinVerif/Model/C02Ext.lean', 'FinVerif/Spec/C02.lean', 'FinVerif/Lemmas/C02Real.lean', 'FinVerif/Lemmas/C02Interp.lean', 'FinVerif/Lemmas/C02Alg.lean'])
+                              extra_files=['FinVerif/Model/C02.lean', 'FinVerif/Model/C02Ext.lean', 'FinVerif/Spec/C02.lean', 'FinVerif/Lemmas/C02Real.lean', 'FinVerif/Lemmas/C02Interp.lean', 'FinVerif/Lemmas/C02Alg.lean', 'FinVerif/Spec/TimeAxis.lean'])
     C.import_financepy()
     import numpy as np
     import warnings
@@ -148,6 +138,7 @@ def run(ctx):
     E.component_curves()
     E.component_witnesses()
     E.component_growth()
+    timeaxis.check(ctx, drivers_ok)      # classifier == Lean predicate of Props/C02f; implementation's two axes vs exact rationals
     ctx.assumptions += [
         'theorems are about the model read over the real numbers; the Float instantiation of the same text is compared '
         f'with the implementation at rtol {RTOL}; rounding is covered only by that tolerance and the oracle tolerances',
@@ -159,7 +150,7 @@ def run(ctx):
         'error there and the implementation\'s outcome is recorded under the known finding, not compared',
     ]
     return C.finish(ctx, 'proof',
-                    'lake build FinVerif.Props.C02a FinVerif.Props.C02b FinVerif.Props.C02c FinVerif.Props.C02d FinVerif.Props.C02e && lake env lean .cache/audit/Audit_C02.lean',
+                    'lake build FinVerif.Props.C02a FinVerif.Props.C02b FinVerif.Props.C02c FinVerif.Props.C02d FinVerif.Props.C02e FinVerif.Props.C02f && lake env lean .cache/audit/Audit_C02.lean',
                     C.TRUSTED_BASE_COMMON + ['Model/C02.lean and Model/C02Ext.lean are hand-written: their tie to the Python is the '
                                              'per-run correspondence (not a translation); nsRate / nssRate / zeroToDf are in addition '
                                              'proved equal to the generated text Gen/CurvesR (Props/C02d)',
@@ -885,9 +876,13 @@ class Env:
 
     def leap_bound(self, v, q, rate_scale):
         """magnitude bound of the time-axis defect at date q: |ln df error| <= rate_scale * |t365 - tISDA| * 4"""
-        t365 = (q.excel_dt - v.excel_dt) / 365.0
-        tis = self.yf(self.DCT.ACT_ACT_ISDA, v, q)
-        return 4.0 * rate_scale * abs(t365 - tis) + 1e-12
+        # the gap is the EXACT one of theorem time_axis_gap (leap-year days of [v, q) times 1/365 - 1/366), not the
+        # implementation's own floats: a defect in year_frac cannot widen the classifier (timeaxis.check compares both)
+        if q.excel_dt >= v.excel_dt:
+            gap = float(timeaxis.axis_gap(v, q))
+        else:
+            gap = abs((q.excel_dt - v.excel_dt) / 365.0 - self.yf(self.DCT.ACT_ACT_ISDA, v, q))
+        return 4.0 * rate_scale * gap + 1e-12
 
     # -- DiscountCurve (pillar dfs) ---------------------------------------------------------------
     def curves_discount(self, rng):
